@@ -173,26 +173,50 @@ def one_case(cid, fam, rng, ksel=None):
     return case
 
 
-def pafd_case(cid, rng):
-    cls = get("PopulationAlleleFrequencyDistanceSelectionProblem", "PopulationAlleleFrequencyDistanceSubsetSelectionProblem")
+FREQ_CLASSES = {
+    "pafd": ("PopulationAlleleFrequencyDistanceSelectionProblem", "PopulationAlleleFrequencyDistanceSubsetSelectionProblem"),
+    "pau": ("PopulationAlleleUnavailabilitySelectionProblem", "PopulationAlleleUnavailabilitySubsetSelectionProblem"),
+    "mogs": ("MultiObjectiveGenomicSelectionProblem", "MultiObjectiveGenomicSubsetSelectionProblem"),
+}
+
+
+def pafd_case(cid, rng, kind="pafd", ksel=None):
+    """allele-frequency criteria: distance to a target frequency, allele unavailability, and both (MOGS)."""
+    cls = get(*FREQ_CLASSES[kind])
+    pl = 2 if kind == "pafd" else rng.choice([2, 2, 4])
     n = rng.randrange(2, 6); L = rng.randrange(1, 5); T = rng.randrange(1, 3)
     c = [rng.choice([0, 1, 1]) for _ in range(n)]
     if sum(c) == 0:
         c[0] = 1
+    if ksel:                     # a selection of many candidates out of a few more
+        n = ksel + rng.randrange(0, 4); L = 3
+        c = [1] * ksel + [0] * (n - ksel); rng.shuffle(c)
     k = sum(c)
-    g = np.array([[rng.randrange(3) for _ in range(L)] for _ in range(n)], dtype="int8")
+    g = np.array([[rng.randrange(pl + 1) for _ in range(L)] for _ in range(n)], dtype="int8")
+    if kind != "pafd":
+        for l in range(L):       # loci fixed one way or the other in the whole population, or in the selected set only
+            how = rng.randrange(5)
+            if how == 0: g[:, l] = 0
+            elif how == 1: g[:, l] = pl
+            elif how == 2: g[[i for i in range(n) if c[i]], l] = rng.choice([0, pl])
     w = np.array([[rng.randrange(0, 3) for _ in range(T)] for _ in range(L)], dtype=float)
-    tn = np.array([[rng.randrange(0, 5) for _ in range(T)] for _ in range(L)])
-    case = {"id": cid, "fam": "pafd", "family": "pafd", "c": c, "g": g.astype(int).tolist(), "pl": 2, "w": w.T.astype(int).tolist(),
+    tn = np.array([[rng.choice([0, 0, 1, 2, 3, 4, 4]) if kind != "pafd" else rng.randrange(0, 5) for _ in range(T)] for _ in range(L)])
+    nlat = 2 * T if kind == "mogs" else T
+    case = {"id": cid, "fam": kind, "family": kind, "c": c, "g": g.astype(int).tolist(), "pl": pl, "w": w.T.astype(int).tolist(),
             "tn": tn.T.tolist(), "td": 4, "err": None, "obs": [], "dataok": True}
     ok = [True]
     try:
         with np.errstate(all="ignore"):
-            prob = cls(geno=g, ploidy=2, mkrwt=w, tfreq=tn / 4.0, nobj=T, **space("Subset", n, k))
+            reconf = kind != "pafd" and rng.random() < 0.4
+            first = np.full(tn.shape, 0.5) if reconf else tn / 4.0
+            prob = cls(geno=g, ploidy=pl, mkrwt=w, tfreq=first, nobj=nlat, **space("Subset", n, k))
+            if reconf:
+                prob.tfreq = tn / 4.0            # the target revised through its setter
+                case["edited"] = "tfreq"
             for _ in range(2):
                 listing = [i for i, m in enumerate(c) for _ in range(m)]; rng.shuffle(listing)
                 case["obs"].append({"enc": "subset", "vals": [rat(v, ok) for v in np.asarray(prob.latentfn(np.array(listing))).ravel()],
-                                    "trans": "identity", "wobj": [1] * T, "lw": [1] * T})
+                                    "trans": "identity", "wobj": [1] * nlat, "lw": [1] * nlat})
         case["lat"] = ok[0]
     except Exception as e:
         case["err"] = "%s: %s" % (type(e).__name__, str(e)[:200])
@@ -360,7 +384,7 @@ def run(ctx):
     thorough = ctx.tier == "thorough"
     ctx.rule = ("TLC checks scale invariance, non-negativity and betweenness of the criterion definitions for all contribution vectors "
                 "of <=3 candidates; the latent vector of every criterion family (EBV, GEBV, wGEBV, gwGEBV, random, EMBV, OHV, UC, "
-                "family EBV, OCS, MGR, MEH, L1, L2, allele-frequency distance) is computed by the real subset / integer / binary / real "
+                "family EBV, OCS, MGR, MEH, L1, L2, allele-frequency distance, allele unavailability, MOGS) is computed by the real subset / integer / binary / real "
                 "problem classes for the same contribution vector (two listings, two scalings) and validated by TLC against the "
                 "definition; assembled objectives/constraints with weights and identity/sum/dot transformations and factory data are "
                 "checked too; distinct by (family, data, contribution vector)")
@@ -379,6 +403,12 @@ def run(ctx):
             allc.append(one_case(len(allc) + 1, fam, rng, ksel=ksel))
     for _ in range(reps * 2):
         allc.append(pafd_case(len(allc) + 1, rng))
+    for kind in ("pau", "mogs"):
+        for _ in range(reps * 2):
+            allc.append(pafd_case(len(allc) + 1, rng, kind))
+        for ksel in (24, 49, 53, 98, 103):
+            for _ in range(2):
+                allc.append(pafd_case(len(allc) + 1, rng, kind, ksel=ksel))
     for which in ("ebv.from_bvmat", "gebv.from_gmat_gpmod", "ocs.from_bvmat_gmat", "mgr.from_gmat", "embv.from_pgmat_gpmod", "ohv.from_pgmat_gpmod",
                   "uc2.from_pgmat_gpmod", "uc3.from_pgmat_gpmod", "ohv.from_pgmat_gpmod[large]"):
         for _ in range(reps):
